@@ -55,6 +55,8 @@ type faultStore struct {
 	anyFail  *bool
 	letterOf map[string]string
 	wrap     int // error flavour of the store: 0 bare sentinels, 1 ierrors.Wrap, 2 fmt.Errorf("%w") twice
+	dirty    bool // a failing Set / Delete takes effect before it reports the failure
+	dirtyHit bool // ... and that happened in the current operation
 }
 
 // we returns the error the way this store flavour reports it.  A KVStore may wrap its sentinel errors (callers are
@@ -91,6 +93,21 @@ func (f *faultStore) setFlavour(name string) string {
 
 func (f *faultStore) begin(failAt map[int]bool, kvAfter int) {
 	f.calls, f.failAt, f.kvAfter = 0, failAt, kvAfter
+	f.dirtyHit = false
+}
+
+// dirty failures: a failing Set / Delete of this store takes effect before it reports the failure
+func (f *faultStore) setFaults(name string) string {
+	switch name {
+	case "dirty":
+		f.dirty = true
+	case "atomic":
+		f.dirty = false
+	default:
+		return "bad-op"
+	}
+
+	return "ok"
 }
 
 func (f *faultStore) hit(letter string) bool {
@@ -132,6 +149,12 @@ func (f *faultStore) Has(k kvstore.Key) (bool, error) {
 
 func (f *faultStore) Set(k kvstore.Key, v kvstore.Value) error {
 	if f.hit("S") {
+		if f.dirty {
+			f.dirtyHit = true
+			f.KVStore.Set(k, v)
+			scribble(v)
+		}
+
 		return f.we(errKV)
 	}
 	*f.trace = append(*f.trace, "S")
@@ -194,6 +217,11 @@ func (f *faultStore) Clear() error {
 
 func (f *faultStore) Delete(k kvstore.Key) error {
 	if f.hit("X") {
+		if f.dirty {
+			f.dirtyHit = true
+			f.KVStore.Delete(k)
+		}
+
 		return f.we(errKV)
 	}
 	*f.trace = append(*f.trace, "X")
@@ -450,6 +478,7 @@ type tvWorld struct {
 	initHas  bool
 	fnResult string // what the compute function of the current op answered: "", "ok", "nc", "fail"
 	bufs     codecBufs
+	stale    bool // the store applied a write it reported as failed: the cache may be behind the store until the next successful write / a fresh object
 }
 
 func newTVWorld() *tvWorld {
@@ -706,7 +735,10 @@ func (w *tvWorld) exec(r *hx.Run, f []string) string {
 		return w.fs.setFlavour(f[1])
 	case "values":
 		return w.bufs.setValues(f[1])
+	case "faults":
+		return w.fs.setFaults(f[1])
 	case "init":
+		w.stale = false
 		w.base.Delete(tvKey)
 		w.initHas, w.initRaw = false, nil
 		if f[1] != "none" {
@@ -719,6 +751,7 @@ func (w *tvWorld) exec(r *hx.Run, f []string) string {
 		return "ok"
 	case "reopen":
 		w.open()
+		w.stale = false
 		raw, has := w.raw()
 		cv, ch := w.cache()
 
@@ -742,6 +775,7 @@ func (w *tvWorld) exec(r *hx.Run, f []string) string {
 	w.fs.begin(failAt, -1)
 	rawBefore, hasBefore := w.raw()
 	cvBefore, chBefore := w.cache()
+	staleBefore := w.stale // the cache this operation starts from may be behind the store (dirty failure earlier)
 	curBefore, decodableBefore := uint64(0), false
 	if hasBefore {
 		curBefore, decodableBefore = w.bufs.decValRaw(rawBefore)
@@ -861,7 +895,8 @@ func (w *tvWorld) exec(r *hx.Run, f []string) string {
 	}
 	// (2) a failure leaves store and cache unchanged
 	if w.anyFail || isErr {
-		if hasAfter != hasBefore || string(rawAfter) != string(rawBefore) {
+		// (over a store with dirty failures the raw bytes are the store's business; the cache is the wrapper's)
+		if !w.fs.dirtyHit && (hasAfter != hasBefore || string(rawAfter) != string(rawBefore)) {
 			r.Fail("failure-atomic", fmt.Sprintf("%s failed (%s) but the raw bytes changed %s -> %s", op, out, showRaw(rawBefore, hasBefore), showRaw(rawAfter, hasAfter)),
 				map[string]string{"oracle": "store-changed-on-failure", "api": api, "calls": traceStr(w.trace)})
 		}
@@ -881,6 +916,18 @@ func (w *tvWorld) exec(r *hx.Run, f []string) string {
 	// (3) the stored bytes are the encoding of the last successful write
 	if wrote != 0 {
 		w.lwKind, w.lwVal = wrote, wroteVal
+		w.stale = false // a successful write refreshes store and cache together
+	}
+	if w.fs.dirtyHit {
+		// the store applied a write it reported as failed: from here on the raw bytes it left are the baseline, and the
+		// cache (untouched, as it must be) may be behind them
+		w.lwKind, w.initRaw, w.initHas = 0, rawAfter, hasAfter
+		w.stale = true
+		r.Count("tv:dirty-write-failures")
+		if !isErr {
+			r.Fail("failure-reported", fmt.Sprintf("%s: the store write failed (after taking effect) but the method returned %q", op, out),
+				map[string]string{"oracle": "swallowed-error", "api": api, "failed_call": "dirty-write"})
+		}
 	}
 	var wantRaw []byte
 	wantHas := false
@@ -894,20 +941,20 @@ func (w *tvWorld) exec(r *hx.Run, f []string) string {
 		r.Fail("stored-is-last-written", fmt.Sprintf("after %s (%s): raw=%s but the last successful write makes it %s", op, out, showRaw(rawAfter, hasAfter), showRaw(wantRaw, wantHas)),
 			map[string]string{"oracle": "stored-differs", "api": api, "calls": traceStr(w.trace)})
 	}
-	// (4) cache = store
-	if cvAfter != nil {
+	// (4) cache = store (not claimed while the store is ahead of what it reported)
+	if cvAfter != nil && !w.stale {
 		v, okd := w.bufs.decValRaw(rawAfter)
 		if !hasAfter || !okd || v != *cvAfter {
 			r.Fail("cache-coherent", fmt.Sprintf("after %s (%s): valueCached=%d but raw=%s", op, out, *cvAfter, showRaw(rawAfter, hasAfter)),
 				map[string]string{"oracle": "cache-value", "api": api, "calls": traceStr(w.trace)})
 		}
 	}
-	if chAfter != nil && *chAfter != hasAfter {
+	if chAfter != nil && *chAfter != hasAfter && !w.stale {
 		r.Fail("cache-coherent", fmt.Sprintf("after %s (%s): hasCached=%v but raw=%s", op, out, *chAfter, showRaw(rawAfter, hasAfter)),
 			map[string]string{"oracle": "cache-has", "api": api, "calls": traceStr(w.trace)})
 	}
 	// (5) transparency: no failed call => the result of the raw key under the codec
-	if !w.anyFail && !isErr && pan == "" && expect != "" && out != expect {
+	if !w.anyFail && !isErr && pan == "" && expect != "" && out != expect && !staleBefore && !w.stale {
 		r.Fail("transparent", fmt.Sprintf("%s on raw=%s returned %q, the raw key under the codec gives %q", op, showRaw(rawBefore, hasBefore), out, expect),
 			map[string]string{"oracle": "result-differs", "api": api})
 	}
